@@ -29,7 +29,7 @@
 void snoopy_message_generateFromFormat (
     char * const       logMessage,
     size_t             logMessageBufSize,
-    size_t             dataSourceMsgMaxLength,
+    size_t             dataSourceMsgBufSize,
     char const * const logMessageFormat
 );
 
